@@ -125,3 +125,46 @@ func verifHarnessC18RunPut() {
 	assert("sent-exactly-the-policy-bytes", and(bytesEq(verifSent.value, want), verifSent.name == "name/of/secret"))
 	reach("end-sent")
 }
+
+// ---------- large values: the bytes sent are the bytes read, however long the input is ----------
+
+type verifLimited struct {
+	r io.Reader
+	n int64
+}
+
+func (l *verifLimited) Read(p []byte) (int, error) { return 0, io.EOF }
+
+func verifStubLimitReader(r io.Reader, n int64) io.Reader { return &verifLimited{r, n} }
+
+// reading through a length-limiting wrapper delivers at most its limit
+func verifStubReadAllLarge(r io.Reader) ([]byte, error) {
+	if lr, ok := r.(*verifLimited); ok {
+		if int64(len(verifInput)) > lr.n {
+			cut := blobMake("PREFIX-OF-INPUT", verifInput) // a different byte string: the first n bytes only
+			assume(int64(len(cut)) == lr.n)
+			ghostLog("input.truncated.by.a.limit")
+			return cut, nil
+		}
+	}
+	return verifInput, nil
+}
+
+func verifStubBinaryInput(p []byte) bool { return false } // the large input is binary: handled verbatim by definition
+
+func verifHarnessC18RunPutLarge() {
+	clientArgs.Server = "http://setec.example"
+	verifSent.calls, verifSent.value = 0, nil
+	verifInput = blobMake("LARGE-BINARY-INPUT") // opaque bytes of any length in 1..2^40-1 (the length is a bit-vector, not a string model)
+	verifReadFails = false
+	putArgs.Verbatim, putArgs.TrimSpace, putArgs.EmptyOK = nondetBool("flag.verbatim"), nondetBool("flag.trim-space"), nondetBool("flag.empty-ok")
+	putArgs.File = ""
+	if nondetBool("from.file") {
+		putArgs.File = "secret.bin"
+	}
+	err := runPut(&command.Env{}, "name/of/secret")
+	_ = err
+	assert("sent-once", verifSent.calls == 1)
+	assert("sent-exactly-the-bytes-read-whatever-their-length", bytesEq(verifSent.value, verifInput))
+	reach("end")
+}
